@@ -94,6 +94,35 @@ func init() {
 					out += "//" + stream(d)
 				}
 				return out
+			case "g", "G":
+				// history probes for Len: Len after k reads, after reading everything, after Check; every part must equal Len on a fresh document
+				var parts []string
+				for _, pre := range []string{"one", "two", "three", "all", "check"} {
+					d := mk(f[0] == "G")
+					switch pre {
+					case "one", "two", "three":
+						for i := 0; i < map[string]int{"one": 1, "two": 2, "three": 3}[pre]; i++ {
+							if _, err := d.NextLexeme(); err != nil {
+								break
+							}
+						}
+					case "all":
+						for i := 0; i < 4*len(src)+16; i++ {
+							if _, err := d.NextLexeme(); err != nil {
+								break
+							}
+						}
+					case "check":
+						d.Check()
+					}
+					n, err := d.Len()
+					if err != nil {
+						parts = append(parts, errInfo(err))
+					} else {
+						parts = append(parts, fmt.Sprintf("%d", n))
+					}
+				}
+				return strings.Join(parts, "/")
 			case "h", "H":
 				// history probes: Check after (1) one NextLexeme, (2) reading everything, (3) Len, (4) Check;
 				// and Len after Check. Every part must equal the result on a fresh document.
